@@ -442,3 +442,39 @@ def snapshot(a):
     if isinstance(a, list):
         return [snapshot(x) for x in a]
     return a
+
+
+class Uncopyable:
+    """what real query nodes carry as attributes: the dataset object (with its locks, files, sessions) and its bound executor - an
+    object that must travel with the node by reference: it can be neither deep-copied nor pickled, and its identity matters"""
+
+    def __init__(self):
+        import threading
+
+        self.lock = threading.Lock()
+        self.copied = 0
+
+    def __deepcopy__(self, memo):
+        self.copied += 1
+        raise TypeError("cannot pickle '_thread.lock' object")
+
+    def __reduce__(self):
+        raise TypeError("cannot pickle '_thread.lock' object")
+
+
+def attach_object(tree, rnd=None):
+    """hang an Uncopyable on a Call node of the tree (the EventDataset() call if there is one) the way EventDataset hangs itself
+    on its node; -> the object, or None if the tree has no call"""
+    # (function-form calls only: a method-form operator call is what a conversion legitimately replaces by a new node)
+    calls = [n for n in walk_nodes(tree) if isinstance(n, ast.Call) and isinstance(n.func, ast.Name)]
+    if not calls:
+        return None
+    roots = [n for n in calls if isinstance(n.func, ast.Name) and n.func.id == "EventDataset"]
+    node = roots[0] if roots else (rnd.choice(calls) if rnd else calls[0])
+    obj = Uncopyable()
+    node._eds_object = obj
+    return obj
+
+
+def find_object(tree, obj):
+    return any(getattr(n, "_eds_object", None) is obj for n in walk_nodes(tree))
